@@ -508,6 +508,15 @@ let op_cpkt opidx impl_all toks =
       let s, o = radsrv md5 rx (config ()) fs s h (nat_of_int c) (z_of_int (int_of_string now)) (bytes_of_hex rnd) in
       hist_step opidx s0 (HRecv (nat_of_int c, z_of_int (int_of_string now), bytes_of_hex rnd, bytes_of_hex pkt, fs)) s;
       st := Some s;
+      (* C01: the request is queued exactly once, for the server the configuration routes it to, and for no other *)
+      if not !in_fault && not !diverged then begin
+        let m_enq = List.sort compare (List.filter_map (function OEnq (sv, _, _) -> Some (int_of_nat sv) | _ -> None) o) in
+        let i_enq = List.sort compare (List.filter_map (function [ sv; _; _ ] -> (try Some (int_of_string sv) with _ -> None) | _ -> None) (impl_events impl_all "enq")) in
+        if m_enq <> [] || i_enq <> [] then
+          spec opidx "C01_queued_exactly_once" (m_enq = i_enq)
+            (Printf.sprintf "client %d: queued for server(s) [%s], the configuration routes it to [%s]" c
+               (String.concat "," (List.map string_of_int i_enq)) (String.concat "," (List.map string_of_int m_enq)))
+      end;
       print_outs opidx o ~wake_first:false; flush_misses opidx; print_state opidx s
   | _ -> ()
 
